@@ -196,9 +196,8 @@ class Grid(BaseGrid):
         I = X.round().astype(int) - self.i0
         J = Y.round().astype(int) - self.j0
 
-        # Metric is conform for PolarStereographic
-        A = self.dx[J, I]
-        return A, A
+        # The grid spacing may differ between the two directions (pm != pn)
+        return self.dx[J, I], self.dy[J, I]
 
     def depth(self, X: ParticleArray, Y: ParticleArray) -> ParticleArray:
         """Return the depth of grid cells containing the particles"""
